@@ -1,6 +1,7 @@
 package eng
 
 import (
+	"go/constant"
 	"go/token"
 
 	"golang.org/x/tools/go/ssa"
@@ -159,11 +160,83 @@ func MustCross(fn *ssa.Function, sat func(Edge) bool, kill func(*ssa.BasicBlock)
 // GuardedBy reports whether every path to instruction at (the start of) block b
 // crosses an edge whose fact satisfies pred.
 func GuardedBy(fn *ssa.Function, b *ssa.BasicBlock, pred func(Fact) bool) bool {
-	m := MustCross(fn, func(e Edge) bool {
-		f, ok := EdgeFact(e)
-		return ok && pred(f)
-	}, nil)
+	m := MustCross(fn, func(e Edge) bool { return AnyEdgeFact(e, pred) }, nil)
 	return m[b]
+}
+
+// AnyEdgeFact reports whether one of the facts implied by taking edge e satisfies pred.
+func AnyEdgeFact(e Edge, pred func(Fact) bool) bool {
+	for _, f := range EdgeFacts(e) {
+		if pred(f) {
+			return true
+		}
+	}
+	return false
+}
+
+// EdgeFacts returns every fact implied by taking edge e: the branch condition
+// itself and, when the condition is the value of a short-circuit expression
+// (go/ssa evaluates `a && b` in a tagless switch case, in an assignment or in a
+// hoisted boolean as a phi of constants and the last operand), the operands
+// that must have held for the phi to have that value.
+func EdgeFacts(e Edge) []Fact {
+	f, ok := EdgeFact(e)
+	if !ok {
+		return nil
+	}
+	var out []Fact
+	seen := map[ssa.Value]bool{}
+	var expand func(f Fact, depth int)
+	expand = func(f Fact, depth int) {
+		out = append(out, f)
+		ph, ok := f.Cond.(*ssa.Phi)
+		if !ok || seen[ph] || depth > 8 {
+			return
+		}
+		seen[ph] = true
+		// phi true with all other inputs constant false (&&), or phi false with all others constant true (||)
+		live := -1
+		for i, v := range ph.Edges {
+			if cst, isC := v.(*ssa.Const); isC && cst.Value != nil && cst.Value.Kind() == constant.Bool && constant.BoolVal(cst.Value) != f.Pos {
+				continue
+			}
+			if live >= 0 {
+				return
+			}
+			live = i
+		}
+		if live < 0 {
+			return
+		}
+		v := ph.Edges[live]
+		pos := f.Pos
+		for {
+			if u, ok := v.(*ssa.UnOp); ok && u.Op == token.NOT {
+				v, pos = u.X, !pos
+				continue
+			}
+			break
+		}
+		if _, isC := v.(*ssa.Const); !isC {
+			expand(Fact{Cond: v, Pos: pos}, depth+1)
+		}
+		// control reached the phi through that predecessor: the branch edges on the
+		// single-predecessor chain leading to it were taken too
+		b := ph.Block().Preds[live]
+		for steps := 0; steps < 8 && len(b.Preds) == 1; steps++ {
+			p := b.Preds[0]
+			for si, sc := range p.Succs {
+				if sc == b {
+					if pf, ok := EdgeFact(Edge{From: p, Succ: si}); ok {
+						expand(pf, depth+1)
+					}
+				}
+			}
+			b = p
+		}
+	}
+	expand(f, 0)
+	return out
 }
 
 // Dominates reports whether block a dominates block b.
